@@ -251,8 +251,9 @@ def run(tier, seed, t0):
         for hx in HEX_VALID + HEX_INVALID:
             cases.append(dict(prog=prog, compress=comp, labels=lab, out=out, hex=hx, relmain=(lab == 'rel')))
     # (2) every pass x entry/exit x exception kind, on the option sets that write all three files
-    crash_opts = [(p, c, l, o) for p, c, l, o in base_opts if l is not None] if tier == 'thorough' else \
-                 [(p, c, 'rel' if c else 'abs', 'abs' if c else 'rel') for p in PROGRAMS for c in (False, True)] + [('labels', True, 'abs', 'default')]
+    crash_opts = [(p, c, l, o) for p, c, l, o in base_opts if l is not None]
+    if tier == 'quick':
+        crash_opts = [x for i, x in enumerate(crash_opts) if i % 2 == 0 or x[0] == 'labels']
     for name in passes:
         for when in ('entry', 'exit'):
             for kind in ('asm', 'foreign'):
